@@ -1,26 +1,30 @@
 ---------------------------- MODULE Jets ----------------------------
-(* Truncated power series c0 + c1 t + c2 t^2 + c3 t^3 over GF(32749): a homomorphic model of analysis at a    *)
+(* Truncated power series c0 + c1 t + ... + c5 t^5 over GF(32749): a homomorphic model of analysis at a    *)
 (* base point.  Every elementary function is expanded at its own base point with exact rational Taylor        *)
 (* coefficients; ln 2, ln 10 and pi/2 are independent symbols with fixed field values.  Programs are "typed    *)
 (* by base point" (every function argument has the function's base point as constant term), otherwise the      *)
 (* evaluation is inconclusive, never wrong.                                                                     *)
-(*   IsPartial(d, e) :  JetEval(d) = d/dt JetEval(e)   as series (3 coefficients)                              *)
+(*   IsPartial(d, e) :  JetEval(d) = d/dt JetEval(e)   as series (5 coefficients)                              *)
 (* Any mathematically correct derivative expression evaluates equal; a wrong sign, a swapped rule or a dropped  *)
 (* chain factor changes a low-order coefficient.                                                                *)
 EXTENDS Field, Ref
 
-K == 4
+K == 6
 LN2 == 1234   LN10 == 5678   HPI == 9012          \* ln 2, ln 10, pi/2 as independent symbols
 Q(n, d) == FRat(n, d)
 
-JConst(c) == [i \in 1..K |-> IF i = 1 THEN c ELSE 0]
-JLin(c, r) == [i \in 1..K |-> IF i = 1 THEN c ELSE IF i = 2 THEN r ELSE 0]      \* c + r t
-JAdd(a, b) == [i \in 1..K |-> FAdd(a[i], b[i])]
-JSub(a, b) == [i \in 1..K |-> FSub(a[i], b[i])]
-JNeg(a) == [i \in 1..K |-> FNeg(a[i])]
+ASSUME K = 6
+\* TLC evaluates [i \in S |-> e] lazily (every application re-evaluates e), which is exponential in the depth of an
+\* expression tree; series are therefore built as explicit tuples
+Mk(f(_)) == <<f(1), f(2), f(3), f(4), f(5), f(6)>>
+JConst(c) == Mk(LAMBDA i : IF i = 1 THEN c ELSE 0)
+JLin(c, r) == Mk(LAMBDA i : IF i = 1 THEN c ELSE IF i = 2 THEN r ELSE 0)      \* c + r t
+JAdd(a, b) == Mk(LAMBDA i : FAdd(a[i], b[i]))
+JSub(a, b) == Mk(LAMBDA i : FSub(a[i], b[i]))
+JNeg(a) == Mk(LAMBDA i : FNeg(a[i]))
 RECURSIVE Conv(_, _, _, _)
 Conv(a, b, i, j) == IF j > i THEN 0 ELSE FAdd(FMul(a[j], b[i - j + 1]), Conv(a, b, i, j + 1))
-JMul(a, b) == [i \in 1..K |-> Conv(a, b, i, 1)]
+JMul(a, b) == Mk(LAMBDA i : Conv(a, b, i, 1))
 RECURSIVE InvCoef(_, _, _)
 RECURSIVE InvSum(_, _, _, _)
 InvSum(a, n, j, b) == IF j > n THEN 0 ELSE FAdd(FMul(a[j + 1], b[n - j + 1]), InvSum(a, n, j + 1, b))
@@ -32,33 +36,33 @@ JPowInt(a, n) == IF n = 0 THEN JConst(1) ELSE JMul(a, JPowInt(a, n - 1))
 \* f(base + u) for u with zero constant term, f given by its Taylor coefficients c at the base point (Horner)
 RECURSIVE Horner(_, _, _)
 Horner(c, u, i) == IF i = K THEN JConst(c[K]) ELSE JAdd(JConst(c[i]), JMul(u, Horner(c, u, i + 1)))
-ZeroC(a) == [i \in 1..K |-> IF i = 1 THEN 0 ELSE a[i]]
+ZeroC(a) == Mk(LAMBDA i : IF i = 1 THEN 0 ELSE a[i])
 JComp(c, a) == Horner(c, ZeroC(a), 1)
-JDer(a) == [i \in 1..K |-> IF i < K THEN FMul(i, a[i + 1]) ELSE 0]
-Trunc(a) == [i \in 1..K |-> IF i < K THEN a[i] ELSE 0]
+JDer(a) == Mk(LAMBDA i : IF i < K THEN FMul(i, a[i + 1]) ELSE 0)
+Trunc(a) == Mk(LAMBDA i : IF i < K THEN a[i] ELSE 0)
 
-\* [base |-> base point, c |-> Taylor coefficients f(b), f'(b), f''(b)/2, f'''(b)/6]
+\* [base |-> base point, c |-> Taylor coefficients f^(k)(b)/k!, k = 0..5]  (generated with sympy, see DESIGN.md)
 Fn(s) ==
-  CASE s = "sin"   -> [base |-> 0, c |-> <<0, 1, 0, Q(-1, 6)>>]
-    [] s = "cos"   -> [base |-> 0, c |-> <<1, 0, Q(-1, 2), 0>>]
-    [] s = "tan"   -> [base |-> 0, c |-> <<0, 1, 0, Q(1, 3)>>]
-    [] s = "asin"  -> [base |-> 0, c |-> <<0, 1, 0, Q(1, 6)>>]
-    [] s = "acos"  -> [base |-> 0, c |-> <<HPI, FNeg(1), 0, Q(-1, 6)>>]
-    [] s = "atan"  -> [base |-> 0, c |-> <<0, 1, 0, Q(-1, 3)>>]
-    [] s = "sinh"  -> [base |-> 0, c |-> <<0, 1, 0, Q(1, 6)>>]
-    [] s = "cosh"  -> [base |-> 0, c |-> <<1, 0, Q(1, 2), 0>>]
-    [] s = "tanh"  -> [base |-> 0, c |-> <<0, 1, 0, Q(-1, 3)>>]
-    [] s = "asinh" -> [base |-> 0, c |-> <<0, 1, 0, Q(-1, 6)>>]
-    [] s = "atanh" -> [base |-> 0, c |-> <<0, 1, 0, Q(1, 3)>>]
-    [] s = "exp"   -> [base |-> 0, c |-> <<1, 1, Q(1, 2), Q(1, 6)>>]
-    [] s \in {"ln", "log"} -> [base |-> 1, c |-> <<0, 1, Q(-1, 2), Q(1, 3)>>]
-    [] s = "log2"  -> LET i == FInv(LN2) IN [base |-> 1, c |-> <<0, i, FMul(Q(-1, 2), i), FMul(Q(1, 3), i)>>]
-    [] s = "log10" -> LET i == FInv(LN10) IN [base |-> 1, c |-> <<0, i, FMul(Q(-1, 2), i), FMul(Q(1, 3), i)>>]
-    [] s = "sqrt"  -> [base |-> 1, c |-> <<1, Q(1, 2), Q(-1, 8), Q(1, 16)>>]
-    [] s = "sqrt@1/4" -> [base |-> Q(1, 4), c |-> <<Q(1, 2), 1, FNeg(1), 2>>]              \* needed by the rule of acosh at 5/4
-    [] s = "sqrt@9/4" -> [base |-> Q(9, 4), c |-> <<Q(3, 2), Q(1, 3), Q(-1, 27), Q(2, 243)>>]
-    \* acosh at 5/4: acosh(5/4) = ln 2, f' = 4/3, f''/2 = -40/27, f'''/6 = 704/243
-    [] s = "acosh" -> [base |-> Q(5, 4), c |-> <<LN2, Q(4, 3), Q(-40, 27), Q(704, 243)>>]
+  CASE s = "sin" -> [base |-> 0, c |-> <<0, 1, 0, Q(-1, 6), 0, Q(1, 120)>>]
+    [] s = "cos" -> [base |-> 0, c |-> <<1, 0, Q(-1, 2), 0, Q(1, 24), 0>>]
+    [] s = "tan" -> [base |-> 0, c |-> <<0, 1, 0, Q(1, 3), 0, Q(2, 15)>>]
+    [] s = "asin" -> [base |-> 0, c |-> <<0, 1, 0, Q(1, 6), 0, Q(3, 40)>>]
+    [] s = "acos" -> [base |-> 0, c |-> <<HPI, FNeg(1), 0, Q(-1, 6), 0, Q(-3, 40)>>]
+    [] s = "atan" -> [base |-> 0, c |-> <<0, 1, 0, Q(-1, 3), 0, Q(1, 5)>>]
+    [] s = "sinh" -> [base |-> 0, c |-> <<0, 1, 0, Q(1, 6), 0, Q(1, 120)>>]
+    [] s = "cosh" -> [base |-> 0, c |-> <<1, 0, Q(1, 2), 0, Q(1, 24), 0>>]
+    [] s = "tanh" -> [base |-> 0, c |-> <<0, 1, 0, Q(-1, 3), 0, Q(2, 15)>>]
+    [] s = "asinh" -> [base |-> 0, c |-> <<0, 1, 0, Q(-1, 6), 0, Q(3, 40)>>]
+    [] s = "atanh" -> [base |-> 0, c |-> <<0, 1, 0, Q(1, 3), 0, Q(1, 5)>>]
+    [] s = "exp" -> [base |-> 0, c |-> <<1, 1, Q(1, 2), Q(1, 6), Q(1, 24), Q(1, 120)>>]
+    [] s \in {"ln", "log"} -> [base |-> 1, c |-> <<0, 1, Q(-1, 2), Q(1, 3), Q(-1, 4), Q(1, 5)>>]
+    [] s = "log2" -> LET i == FInv(LN2) IN [base |-> 1, c |-> <<0, FMul(1, i), FMul(Q(-1, 2), i), FMul(Q(1, 3), i), FMul(Q(-1, 4), i), FMul(Q(1, 5), i)>>]
+    [] s = "log10" -> LET i == FInv(LN10) IN [base |-> 1, c |-> <<0, FMul(1, i), FMul(Q(-1, 2), i), FMul(Q(1, 3), i), FMul(Q(-1, 4), i), FMul(Q(1, 5), i)>>]
+    [] s = "sqrt" -> [base |-> 1, c |-> <<1, Q(1, 2), Q(-1, 8), Q(1, 16), Q(-5, 128), Q(7, 256)>>]
+    [] s = "sqrt@1/4" -> [base |-> Q(1, 4), c |-> <<Q(1, 2), 1, FNeg(1), 2, FNeg(5), 14>>]              \* needed by the rule of acosh at 5/4
+    [] s = "sqrt@9/4" -> [base |-> Q(9, 4), c |-> <<Q(3, 2), Q(1, 3), Q(-1, 27), Q(2, 243), Q(-5, 2187), Q(14, 19683)>>]
+    \* acosh at 5/4: acosh(5/4) = ln 2, all derivatives rational
+    [] s = "acosh" -> [base |-> Q(5, 4), c |-> <<LN2, Q(4, 3), Q(-40, 27), Q(704, 243), Q(-15680, 2187), Q(1967104, 98415)>>]
     [] OTHER -> [base |-> -1, c |-> <<>>]
 Differentiable == {"sin", "cos", "tan", "asin", "acos", "atan", "sinh", "cosh", "tanh", "asinh", "acosh", "atanh", "exp",
                    "ln", "log", "log2", "log10", "sqrt"}
